@@ -384,14 +384,27 @@ func selectNodesForGraph(nodes Nodes, dropNegative bool) *Graph {
 			continue
 		}
 		if n.Cum == 0 && n.Flat == 0 {
+			removeNodeEdges(n)
 			continue
 		}
 		if dropNegative && isNegative(n) {
+			removeNodeEdges(n)
 			continue
 		}
 		gNodes = append(gNodes, n)
 	}
 	return &Graph{gNodes}
+}
+
+// removeNodeEdges disconnects a node that is not going to be part of
+// the graph, so that no edge of the graph refers to a missing node.
+func removeNodeEdges(n *Node) {
+	for src := range n.In {
+		delete(src.Out, n)
+	}
+	for dest := range n.Out {
+		delete(dest.In, n)
+	}
 }
 
 type nodePair struct {
